@@ -43,6 +43,8 @@ pub enum Ev {
 	FsPass(u8, u8),
 	/// the same, rejected by the filter
 	FsRej(u8, u8),
+	/// a real OS signal raised at this process: SIGNALS[i], delivered by the signal source
+	Sig(u8),
 }
 
 pub const ALL_EV: [Ev; 9] = [Ev::NPass, Ev::NRej, Ev::NErr, Ev::NEmpty, Ev::LPass, Ev::HPass, Ev::HRej, Ev::URej, Ev::UEmpty];
@@ -60,7 +62,7 @@ impl Ev {
 		matches!(self, Ev::NEmpty | Ev::UEmpty)
 	}
 	pub fn urgent(self) -> bool {
-		matches!(self, Ev::URej | Ev::UEmpty)
+		matches!(self, Ev::URej | Ev::UEmpty) || matches!(self, Ev::Sig(i) if SIGNALS[i as usize].2)
 	}
 	/// scripted filter verdict carried in the event's metadata
 	pub fn verdict(self) -> &'static str {
@@ -178,6 +180,21 @@ fn render(l: &L) -> String {
 
 const EMPTY_ID_BASE: usize = 1000;
 
+/// (OS signal number, portable signal, expected priority class) handled by the signal source
+pub const SIGNALS: [(i32, watchexec_signals::Signal, bool); 6] = [
+	(1, watchexec_signals::Signal::Hangup, false),
+	(2, watchexec_signals::Signal::Interrupt, true),
+	(3, watchexec_signals::Signal::Quit, false),
+	(15, watchexec_signals::Signal::Terminate, true),
+	(10, watchexec_signals::Signal::User1, false),
+	(12, watchexec_signals::Signal::User2, false),
+];
+const SIG_ID_BASE: usize = 5000;
+
+extern "C" {
+	fn raise(sig: i32) -> i32;
+}
+
 /// Every `notify::EventKind` value.
 pub fn all_kinds() -> Vec<notify::EventKind> {
 	use notify::event::{AccessKind as A, AccessMode as M, CreateKind as C, DataChange as D, EventKind as K, MetadataKind as Me, ModifyKind as Mo, RemoveKind as R, RenameMode as Rn};
@@ -220,6 +237,11 @@ fn fs_expected_tags(id: usize, ev: Ev) -> String {
 }
 
 fn event_id(e: &Event) -> usize {
+	if let Some(sig) = e.signals().next() {
+		if let Some(i) = SIGNALS.iter().position(|(_, s, _)| *s == sig) {
+			return SIG_ID_BASE + i;
+		}
+	}
 	if let Some(id) = e.metadata.get("id").and_then(|v| v.first()).and_then(|s| s.parse().ok()) {
 		return id;
 	}
@@ -276,6 +298,10 @@ impl Future for GateWait {
 
 fn log_fs_tags(events: &[Event]) {
 	for e in events {
+		if e.signals().next().is_some() {
+			let id = event_id(e);
+			w(|x| x.log.push(L::FsTags { id, tags: format!("{:?}", e.tags) }));
+		}
 		if e.tags.contains(&Tag::Source(Source::Filesystem)) {
 			let id = event_id(e);
 			w(|x| x.log.push(L::FsTags { id, tags: format!("{:?}", e.tags) }));
@@ -507,7 +533,15 @@ async fn body(sc: &EvSc, bounds: Bounds, prop: &str) -> Obs {
 				let (id, ev) = per[&p][cursor[&p]];
 				*cursor.get_mut(&p).unwrap() += 1;
 				w(|x| x.log.push(L::Send { id, ev, t: now }));
-				if ev.fs().is_some() {
+				if let Ev::Sig(i) = ev {
+					// a real signal to this very process; the signal source picks it up when
+					// the I/O driver turns
+					unsafe {
+						raise(SIGNALS[i as usize].0);
+					}
+					tokio::task::yield_now().await;
+					tokio::task::yield_now().await;
+				} else if ev.fs().is_some() {
 					// delivered synchronously from "the watcher's thread" through the callback the
 					// fs worker registered, i.e. through the real process_event + try_send
 					match fakewatcher::live().first() {
@@ -638,6 +672,9 @@ fn c01_end(sc: &EvSc, main_done: bool) {
 	}
 	let _ = EMPTY_ID_BASE;
 	for (id, n) in &delivered {
+		if *id >= SIG_ID_BASE && *id < SIG_ID_BASE + SIGNALS.len() {
+			continue; // signal events are accounted for below
+		}
 		if *id >= sc.script.len() {
 			push("C01/unknown-event-delivered".into(), format!("handler saw an event with id {id}"));
 			continue;
@@ -662,6 +699,41 @@ fn c01_end(sc: &EvSc, main_done: bool) {
 		if let L::FilterCall { id } = l {
 			if *id < sc.script.len() && class_of(sc, *id).bypasses_filter() {
 				push(format!("C01/filter-called-for-bypass/{:?}", class_of(sc, *id)), format!("the filter was consulted for event #{id}"));
+			}
+		}
+	}
+	// OS signals: raised one at a time at quiescent instants (default schedule), each is
+	// handed to the handler exactly once, tagged with its source and the portable signal
+	for (i, (num, sig, _)) in SIGNALS.iter().enumerate() {
+		let raised = sc.script.iter().enumerate().filter(|(id, (e, _))| *e == Ev::Sig(i as u8) && log.iter().any(|l| matches!(l, L::Send { id: x, .. } if x == id))).count();
+		let seen = delivered.get(&(SIG_ID_BASE + i)).copied().unwrap_or(0);
+		if raised != seen && !main_done {
+			push(format!("C01/signal-event-count/{sig:?}"), format!("signal {num} raised {raised} times, the handler saw {seen} events for it"));
+		}
+		// interrupt and terminate are urgent: they flush the window at once (these scenarios
+		// run on the default schedule, where the raise is observed at a quiescent instant)
+		if SIGNALS[i].2 {
+			for (sid, (e, _)) in sc.script.iter().enumerate() {
+				if *e != Ev::Sig(i as u8) {
+					continue;
+				}
+				let Some(ts) = log.iter().find_map(|l| if let L::Send { id, t, .. } = l { (*id == sid).then_some(*t) } else { None }) else { continue };
+				let entered = log.iter().find_map(|l| if let L::BatchEnter { ids, t, .. } = l { (ids.contains(&(SIG_ID_BASE + i)) && *t >= ts).then_some(*t) } else { None });
+				if let Some(te) = entered {
+					if te != ts {
+						push(format!("C01/signal-not-urgent/{sig:?}"), format!("signal {num} raised at t{ts} reached the handler only at t{te}"));
+					}
+				}
+			}
+		}
+		for l in &log {
+			if let L::FsTags { id, tags } = l {
+				if *id == SIG_ID_BASE + i {
+					let want = format!("{:?}", vec![Tag::Source(if *sig == watchexec_signals::Signal::Interrupt { Source::Keyboard } else { Source::Os }), Tag::Signal(*sig)]);
+					if *tags != want {
+						push(format!("C01/signal-event-tags/{sig:?}"), format!("handler saw tags {tags}, expected {want}"));
+					}
+				}
 			}
 		}
 	}
@@ -886,9 +958,17 @@ pub fn scenarios(prop: &str, tier: Tier) -> Vec<(EvSc, Vec<Bounds>)> {
 			for s in upto(&ALL_EV, len) {
 				let l = s.len();
 				let passes = if l == len { ladder(k.saturating_sub(1)) } else { ladder(k) };
+				// the longest scripts of the thorough tier: two configurations only
+				let long = l >= 4;
 				for thr in [0u64, 2] {
+					if long && thr == 0 {
+						continue;
+					}
 					// one producer, large queue, sync and gated handler
 					for gated in [false, true] {
+						if long && gated {
+							continue;
+						}
 						let mut sc = EvSc::base(s.iter().map(|e| (*e, 0)).collect(), thr);
 						sc.gated = gated;
 						out.push((sc, passes.clone()));
@@ -897,6 +977,9 @@ pub fn scenarios(prop: &str, tier: Tier) -> Vec<(EvSc, Vec<Bounds>)> {
 				// small queues force producers to block (gated handler keeps the worker busy)
 				if l >= 2 {
 					for chan in [1usize, 2] {
+						if long && chan == 2 {
+							continue;
+						}
 						let mut sc = EvSc::base(s.iter().map(|e| (*e, 0)).collect(), 2);
 						sc.gated = true;
 						sc.chan = chan;
@@ -905,10 +988,12 @@ pub fn scenarios(prop: &str, tier: Tier) -> Vec<(EvSc, Vec<Bounds>)> {
 					}
 					// two producers: split in every order-preserving way (one representative
 					// split per script: alternate)
-					let mut sc = EvSc::base(s.iter().enumerate().map(|(i, e)| (*e, (i % 2) as u8)).collect(), 2);
-					sc.gated = true;
-					sc.chan = 1;
-					out.push((sc, passes.clone()));
+					if !long {
+						let mut sc = EvSc::base(s.iter().enumerate().map(|(i, e)| (*e, (i % 2) as u8)).collect(), 2);
+						sc.gated = true;
+						sc.chan = 1;
+						out.push((sc, passes.clone()));
+					}
 				}
 			}
 		}
@@ -979,6 +1064,14 @@ pub fn scenarios(prop: &str, tier: Tier) -> Vec<(EvSc, Vec<Bounds>)> {
 		_ => {}
 	}
 	if prop == "C01" {
+		// the signal source: each handled signal alone, and around a synthetic event
+		for i in 0..SIGNALS.len() as u8 {
+			for s in [vec![Ev::Sig(i)], vec![Ev::NPass, Ev::Sig(i)], vec![Ev::Sig(i), Ev::NPass], vec![Ev::Sig(i), Ev::Sig((i + 1) % 6)]] {
+				for thr in [0u64, 2] {
+					out.push((EvSc::base(s.iter().map(|e| (*e, 0)).collect(), thr), ladder(0)));
+				}
+			}
+		}
 		// the fs source: every notify event kind x {0,1,2} paths through the real callback
 		let nk = all_kinds().len() as u8;
 		for k in 0..nk {
